@@ -140,13 +140,15 @@ def _eqnan(a, b):
     return (a == b) | (np.isnan(a) & np.isnan(b))
 
 
-def judge(ctx, tspec, gspecs, values, fill, dtype, all_touched_check=True):
+def judge(ctx, tspec, gspecs, values, fill, dtype, all_touched_check=True, after=None):
     from soundevent.geometry import operations as O
 
     arr = _template(tspec)
     t, f = np.array(tspec["time"], float), np.array(tspec["freq"], float)
     gs = [geoms.build(s) for s in gspecs]
     spec = {"kind": "raster", "template": tspec, "geoms": gspecs, "values": values, "fill": fill if not (isinstance(fill, float) and math.isnan(fill)) else "nan", "dtype": dtype}
+    if after is not None:
+        spec["after_same_geometries_on"] = after          # (the call history is part of the case)
     vals_list = values if isinstance(values, list) else [values] * len(gs)
     kw = {"values": values, "fill": fill, "dtype": np.dtype(dtype)}
     names = tspec.get("names")
@@ -414,10 +416,21 @@ def run(ctx):
         ctx.case((order, sq, types if len(types) < 40 else "many", dtype), {"template": tspec, "geoms": gspecs, "values": vals, "fill": "nan" if fill != fill else fill, "dtype": dtype},
                  nontrivial=(nt != nf or ng >= 2))
         judge(ctx, tspec, gspecs, vals, fill, dtype)
+        if len(t) >= 3 and len(f) >= 3 and rng.random() < 0.25 and all(isinstance(x, float) for x in list(t) + list(f)):
+            # straight afterwards: the same geometries on a TWIN template -- same sizes, same first and last coordinate on
+            # both axes, other spacing in between (a log-spaced frequency axis, unevenly spaced frames)
+            twin = dict(tspec)
+            warp = lambda ax: [ax[0] + (ax[-1] - ax[0]) * ((i / (len(ax) - 1)) ** 2) for i in range(len(ax))]
+            twin["time"], twin["freq"] = (warp(t) if rng.random() < 0.7 else list(t)), warp(f)
+            twin.pop("step_attrs", None); twin.pop("range_attrs", None)
+            ctx.case((order, sq, "twin_template", dtype), {"template": twin, "geoms": gspecs, "values": vals, "fill": "nan" if fill != fill else fill, "dtype": dtype, "after_same_geometries_on": tspec})
+            judge(ctx, twin, gspecs, vals, fill, dtype, after=tspec)
 
 
 def replay(ctx, w):
     s = w["spec"]
     ctx.case("replay", s)
     fill = float("nan") if s.get("fill") == "nan" else s.get("fill", 0)
-    judge(ctx, s["template"], s["geoms"], s.get("values", 1), fill, s.get("dtype", "float32"))
+    if s.get("after_same_geometries_on"):
+        judge(ctx, s["after_same_geometries_on"], s["geoms"], s.get("values", 1), fill, s.get("dtype", "float32"))
+    judge(ctx, s["template"], s["geoms"], s.get("values", 1), fill, s.get("dtype", "float32"), after=s.get("after_same_geometries_on"))
